@@ -1,5 +1,8 @@
 (* C07 - property theorems only.  H is the hash used in names (base64 of SHA-256 in
-   the implementation); its collision freedom is an explicit premise, never an axiom. *)
+   the implementation); its collision freedom is an explicit premise, never an axiom.
+   type_name fx: fx = true is the code after the fixes of structHash (tags hashed when
+   non-empty, embedded field rendered as - followed by its name), interfaceHash (method Id)
+   and Implements (one findMethod per interface method); fx = false is the code before. *)
 From LLGoV Require Import C07.Model C07.Proofs.
 From Coq Require Import Sorted.
 Local Open Scope N_scope.
@@ -7,27 +10,27 @@ Local Open Scope N_scope.
 (* identical types have one run-time name (hence one descriptor), provided type
    arguments are spelled canonically: no byte/rune spelling and no func / struct /
    interface type argument (those go through types.TypeString, see the refutation) *)
-Theorem identical_same_name : forall (H : str -> str) t1 t2,
+Theorem identical_same_name : forall (fx : bool) (H : str -> str) t1 t2,
   targs_ok t1 = true -> targs_ok t2 = true -> identb t1 t2 = true ->
-  type_name H t1 = type_name H t2.
+  type_name fx H t1 = type_name fx H t2.
 Proof. exact identical_same_name_lemma. Qed.
 Print Assumptions identical_same_name.
 
-Theorem targ_alias_refuted : forall H : str -> str, exists t1 t2,
-  identb t1 t2 = true /\ fst (type_name H t1) <> fst (type_name H t2).
-Proof. intros H. exists (w_g true), (w_g false). apply targ_alias_witness. Qed.
+Theorem targ_alias_refuted : forall (fx : bool) (H : str -> str), exists t1 t2,
+  identb t1 t2 = true /\ fst (type_name fx H t1) <> fst (type_name fx H t2).
+Proof. intros fx H. exists (w_g true), (w_g false). apply targ_alias_witness. Qed.
 Print Assumptions targ_alias_refuted.
 
-(* equal names imply identical types, proved on the rendered byte strings, for
-   well-formed types: ASCII identifiers, import paths over letters digits - . _ ~ / +
-   with no dot in the last element and outside the runtime patch prefix, members
-   of one struct or interface literal declared in one package, embedded fields named
-   after their type, NO struct tags, and (partial) no generic instances: type
-   arguments are not covered by this theorem *)
+(* equal names imply identical types, proved on the rendered byte strings of the FIXED
+   code, for well-formed types: ASCII identifiers, import paths over letters digits
+   - . _ ~ / + with no dot in the last element and outside the runtime patch prefix, fields
+   of one struct literal declared in one package, struct tags over printable ASCII (where
+   strconv.Quote escapes only the quote and the backslash), interface methods of any
+   packages, and (partial) no generic instances: type arguments are not covered *)
 Theorem type_name_injective_partial : forall (H : str -> str),
   (forall a b, H a = H b -> a = b) -> (forall x, forallb b64char (H x) = true) ->
   forall t1 t2, wf t1 = true -> wf t2 = true ->
-  fst (type_name H t1) = fst (type_name H t2) -> identb t1 t2 = true.
+  fst (type_name true H t1) = fst (type_name true H t2) -> identb t1 t2 = true.
 Proof. exact type_name_injective_lemma. Qed.
 Print Assumptions type_name_injective_partial.
 
@@ -39,42 +42,56 @@ Print Assumptions sha256_b64_alphabet.
 
 Example wf_nontrivial :
   wf (TMap (TArray 3 (TNamed (Some [120;47;97]) [84] TsNil (ScLocal [0;1])))
-           (TStruct (FsCons [65] false [] (Some [97]) (TChan DRecv (TBasic 2 false))
-                    (FsCons [84] true [] (Some [97]) (TPtr (TNamed (Some [97]) [84] TsNil ScPkg))
+           (TStruct (FsCons [65] false [106;115;111;110;58;34;97;34] (Some [97]) (TChan DRecv (TBasic 2 false))
+                    (FsCons [65;108] true [] (Some [97]) (TPtr (TNamed (Some [97]) [84] TsNil ScPkg))
                     (FsCons [98] false [] (Some [97])
                        (TFunc (TsCons [120] (TSlice (TBasic 17 false)) TsNil) (TsCons [] (TNamed None s_error TsNil ScPkg) TsNil) true)
-                       FsNil))))) = true.
+                    (FsCons [105] false [] (Some [97]) (w_if p_xb)
+                       FsNil)))))) = true.
 Proof. reflexivity. Qed.
 
-(* each guard of wf is needed: distinct types with one name, for every hash *)
+(* the three defects that were repaired: before the fix (fx = false) the pair shares a name
+   for every hash; after it (fx = true) the names differ for every collision-free hash *)
 Theorem struct_tag_refuted : forall H : str -> str, exists t1 t2,
-  identb t1 t2 = false /\ type_name H t1 = type_name H t2.
+  identb t1 t2 = false /\ type_name false H t1 = type_name false H t2.
 Proof. intros H. exists w_tag_x, w_tag_y. apply struct_tag_witness. Qed.
 Print Assumptions struct_tag_refuted.
 
 Theorem embedded_alias_refuted : forall H : str -> str, exists t1 t2,
-  identb t1 t2 = false /\ type_name H t1 = type_name H t2.
+  identb t1 t2 = false /\ type_name false H t1 = type_name false H t2.
 Proof. intros H. exists w_emb_A, w_emb_T. apply embedded_alias_witness. Qed.
 Print Assumptions embedded_alias_refuted.
 
 Theorem iface_second_pkg_refuted : forall H : str -> str, exists t1 t2,
-  identb t1 t2 = false /\ type_name H t1 = type_name H t2.
+  identb t1 t2 = false /\ type_name false H t1 = type_name false H t2.
 Proof. intros H. exists (w_if p_xa), (w_if p_xb). apply iface_second_pkg_witness. Qed.
 Print Assumptions iface_second_pkg_refuted.
 
-Theorem struct_second_pkg_refuted : forall H : str -> str, exists t1 t2,
-  identb t1 t2 = false /\ type_name H t1 = type_name H t2.
-Proof. intros H. exists (w_st p_xa), (w_st p_xb). apply struct_second_pkg_witness. Qed.
+Theorem fixed_separates_witnesses : forall (H : str -> str),
+  (forall a b, H a = H b -> a = b) -> (forall x, forallb b64char (H x) = true) ->
+  fst (type_name true H w_tag_x) <> fst (type_name true H w_tag_y)
+  /\ fst (type_name true H w_emb_A) <> fst (type_name true H w_emb_T)
+  /\ fst (type_name true H (w_if p_xa)) <> fst (type_name true H (w_if p_xb)).
+Proof.
+  intros H HI HA. repeat split; intros E;
+    apply (type_name_injective_lemma H HI HA) in E; try reflexivity; discriminate E.
+Qed.
+Print Assumptions fixed_separates_witnesses.
+
+(* guards that remain necessary, before and after the fix *)
+Theorem struct_second_pkg_refuted : forall (fx : bool) (H : str -> str), exists t1 t2,
+  identb t1 t2 = false /\ type_name fx H t1 = type_name fx H t2.
+Proof. intros fx H. exists (w_st p_xa), (w_st p_xb). apply struct_second_pkg_witness. Qed.
 Print Assumptions struct_second_pkg_refuted.
 
-Theorem scope_pos_dotted_path_refuted : forall H : str -> str, exists t1 t2,
-  identb t1 t2 = false /\ type_name H t1 = type_name H t2.
-Proof. intros H. exists w_pos, w_dot. apply scope_pos_dotted_path_witness. Qed.
+Theorem scope_pos_dotted_path_refuted : forall (fx : bool) (H : str -> str), exists t1 t2,
+  identb t1 t2 = false /\ type_name fx H t1 = type_name fx H t2.
+Proof. intros fx H. exists w_pos, w_dot. apply scope_pos_dotted_path_witness. Qed.
 Print Assumptions scope_pos_dotted_path_refuted.
 
-Theorem closure_param_refuted : forall H : str -> str, exists t1 t2,
-  identb t1 t2 = false /\ type_name H t1 = type_name H t2.
-Proof. intros H. exists w_f1, w_f2. apply closure_param_witness. Qed.
+Theorem closure_param_refuted : forall (fx : bool) (H : str -> str), exists t1 t2,
+  identb t1 t2 = false /\ type_name fx H t1 = type_name fx H t2.
+Proof. intros fx H. exists w_f1, w_f2. apply closure_param_witness. Qed.
 Print Assumptions closure_param_refuted.
 
 (* ---- interface satisfaction: NewItab / findMethod / Implements ---- *)
@@ -97,21 +114,29 @@ Theorem itab_slot_is_direct_method : forall inter mt slots,
 Proof. exact new_itab_slots. Qed.
 Print Assumptions itab_slot_is_direct_method.
 
-(* the one-pass scan of Implements is right when BOTH lists are sorted by the same
+(* Implements after the fix (one findMethod per interface method): true exactly when the
+   method set includes the interface, whatever the order of the interface methods *)
+Theorem implements_fixed_iff_methodset : forall t v,
+  StronglySorted mlt v -> (implements true t (Some v) = true <-> Forall (has v) t).
+Proof. exact implements_fixed_iff. Qed.
+Print Assumptions implements_fixed_iff_methodset.
+
+(* before the fix: the one-pass scan is right only when BOTH lists are sorted by the same
    byte order of names *)
 Theorem implements_scan_iff_sorted : forall t v,
   StronglySorted imlt t -> StronglySorted mlt v ->
-  (implements t (Some v) = true <-> Forall (has v) t).
+  (implements false t (Some v) = true <-> Forall (has v) t).
 Proof. exact implements_iff. Qed.
 Print Assumptions implements_scan_iff_sorted.
 
-(* ... but interface method lists come in go/types order (exported names first), which
-   is not the byte order of pkgpath.name: a type with all methods is rejected *)
+(* ... and interface method lists come in go/types order (exported names first), which is
+   not the byte order of pkgpath.name: the old scan rejects a type with all methods, the
+   repaired one accepts it *)
 Theorem implements_order_refuted : exists t v,
-  StronglySorted mlt v /\ Forall (has v) t /\ implements t (Some v) = false
-  /\ new_itab t (Some v) <> None.
+  StronglySorted mlt v /\ Forall (has v) t /\ implements false t (Some v) = false
+  /\ new_itab t (Some v) <> None /\ implements true t (Some v) = true.
 Proof.
-  exists w_inter, w_table. destruct implements_order_witness as (A & B & C & E).
+  exists w_inter, w_table. destruct implements_order_witness as (A & B & C & E & F).
   repeat split; auto. rewrite E. discriminate.
 Qed.
 Print Assumptions implements_order_refuted.
